@@ -324,7 +324,7 @@ class BaseObserver(EventDispatcher):
             # If we don't have an emitter for this watch already, create it.
             if watch not in self._emitter_for_watch:
                 emitter = self._emitter_class(self.event_queue, watch, timeout=self.timeout, event_filter=event_filter)
-                if self.is_alive():
+                if self.is_alive() and self.should_keep_running():
                     emitter.start()
                 self._add_emitter(emitter)
             # Register the handler only once the emitter exists: a schedule() that raises must leave no trace.
